@@ -86,6 +86,20 @@ func c14Judge(c *ev.Check, re *regexp.Regexp, sn Seen, cells map[string]int, mu 
 			c.Count("leaves_in_search_stages_not_judged", 1)
 			return
 		}
+		if !should {
+			// a dotted key ("address.zip") whose COMPONENT matches while the whole key does not:
+			// whether that is "a field name on the path" is open — not judged either way
+			for _, p := range o.Path[2:] {
+				if strings.Contains(p, ".") && !strings.HasPrefix(p, "[") {
+					for _, comp := range strings.Split(p, ".") {
+						if re.MatchString(comp) {
+							c.Count("leaves_under_ambiguous_dotted_keys_not_judged", 1)
+							return
+						}
+					}
+				}
+			}
+		}
 		// '$field' sibling in the same expression array: the tool may tie the literal
 		// to that field; the statement is silent, so such leaves are judged only when
 		// the sibling does NOT match either
